@@ -17,7 +17,7 @@ Lemma save_new_unfold f atoms ilst_data cb f' :
     let data := new_insert cb f last ilst_data in
     off <= zlen f /\
     exists f2, mp4_update_parents (zlen data) (splice f off 0 data) (map ma_off path) = Ok f2 /\
-               mp4_update_offsets atoms (zlen data) off f2 = Ok f'.
+               mp4_update_offsets atoms (zlen data) (off - 1) f2 = Ok f'.
 Proof.
   unfold mp4_save_new. destruct (mp4_insert_path atoms) as [path|]; [|discriminate].
   destruct (rev path) as [|last rest] eqn:Er; [discriminate|]. cbv zeta.
@@ -51,8 +51,8 @@ Variables (path : list mp4_atom) (last : mp4_atom) (rest : list mp4_atom).
 Hypothesis Hpath : insert_path atoms = Some path.
 Hypothesis Hlast : rev path = last :: rest.
 Let off := ma_off last + ma_hdr last.
-(* no offset table starts exactly at the insertion point (it would be the first child of the container) *)
-Hypothesis Hfirst : forall T, In T (all_tabs atoms) -> ma_off T <> off.
+(* __update_offsets is called with offset - 1: an offset table (or a moof a tfhd points at) that starts exactly at the
+   insertion point - possible when the container is empty - moves with everything else behind the new atom *)
 
 Lemma path_facts :
   In last path /\ (ma_name last = N_moov \/ ma_name last = N_udta) /\
@@ -93,7 +93,7 @@ Proof.
   repeat split; auto; try (unfold off; lia). destruct Hn as [-> | ->]; reflexivity.
 Qed.
 
-Lemma new_placed : Forall (placed off 0) (mp4_stco_list atoms ++ mp4_co64_list atoms ++ mp4_tfhd_list atoms).
+Lemma new_placed : Forall (placed off 0 (off - 1)) (mp4_stco_list atoms ++ mp4_co64_list atoms ++ mp4_tfhd_list atoms).
 Proof.
   apply Forall_forall. intros T HT. destruct last_facts as (Hl & (K & HK) & Hs & H0 & Hoff).
   assert (HTin : In T (mp4_flat atoms) /\ mp4_is_container (ma_name T) = false).
@@ -110,17 +110,17 @@ Proof.
     by (unfold seg_of, s_lo, s_hi, off; rewrite HK, Hs; split; cbn; lia).
   assert (HsT : s_lo (seg_of T) = ma_off T /\ s_hi (seg_of T) = ma_off T + ma_len T)
     by (unfold seg_of, s_lo, s_hi; rewrite KT; split; reflexivity).
-  pose proof (Hfirst T HT). unfold placed. destruct (flat_member_ok f atoms Hwf last Hl) as (top' & Hlok).
+  unfold placed. destruct (flat_member_ok f atoms Hwf last Hl) as (top' & Hlok).
   pose proof (atom_ok_len _ _ _ Hlok). unfold off in *. lia.
 Qed.
 
 Variables (data f2 f' : list Z).
 Hypothesis Hrun1 : mp4_update_parents (zlen data - 0) (splice f off 0 data) (map ma_off path) = Ok f2.
-Hypothesis Hrun2 : mp4_update_offsets atoms (zlen data - 0) off f2 = Ok f'.
+Hypothesis Hrun2 : mp4_update_offsets atoms (zlen data - 0) (off - 1) f2 = Ok f'.
 
 Definition new_result :=
   surgery_result f atoms Hwf Htab off 0 data (proj1 (proj2 (proj2 (proj2 (proj2 last_facts)))))
-    (Z.le_refl 0) ltac:(pose proof last_facts; lia) new_placed path
+    (Z.le_refl 0) ltac:(pose proof last_facts; lia) (off - 1) (Z.le_refl _) new_placed path
     (proj1 (proj2 (proj2 path_facts))) (proj2 (proj2 (proj2 path_facts))) f2 f' Hrun1 Hrun2.
 
 Lemma new_leaf_kept L : In L (mp4_flat atoms) -> ma_kids L = None -> is_table_name L = false ->
@@ -129,7 +129,7 @@ Lemma new_leaf_kept L : In L (mp4_flat atoms) -> ma_kids L = None -> is_table_na
 Proof.
   intros HL KL NL Hpos.
   apply (leaf_kept f atoms Hwf Htab off 0 data (proj1 (proj2 (proj2 (proj2 (proj2 last_facts))))) (Z.le_refl 0)
-           ltac:(pose proof last_facts; lia) new_placed path
+           ltac:(pose proof last_facts; lia) (off - 1) (Z.le_refl _) new_placed path
            (proj1 (proj2 (proj2 path_facts))) (proj2 (proj2 (proj2 path_facts))) f2 f' Hrun1 Hrun2 L HL KL).
   - intros HT. unfold all_tabs in HT. unfold is_table_name, mp4_named in NL. apply in_app_or in HT.
     destruct HT as [HT|HT]; [destruct (stco_in atoms L HT) as (_ & E); rewrite E in NL; discriminate|].
